@@ -63,7 +63,8 @@ class PolyhedralTerm(Term):
                 else:
                     variable_dict[key] = float(value)
         self.variables = variable_dict
-        self.constant = float(constant)
+        # adding 0.0 turns a negative zero into 0.0, so that terms that compare equal print and hash alike
+        self.constant = float(constant) + 0.0
 
     def __eq__(self, other: object) -> bool:
         if not isinstance(other, type(self)):
